@@ -620,4 +620,296 @@ theorem parse_cong {c c' : CallFn} (hc : CallRel c c') {X X' : List Node}
     FEq c c' (parse l) (parse l') :=
   parseAux_cong hc hX hX' hXX h [] [] [] [] trivial (FEq.nil c c')
 
+
+/-! ## 5. songs -/
+
+/-- Generic soundness of a rewrite `X ↦ X'` applied at any number of places of any tracks of a
+song: if the base equivalence of `X` and `X'` holds under related call functions (the premise
+also offers the relation at every smaller budget of the rewritten song — subroutine extraction
+needs it), then calls of the two songs are related at all budgets and depths. -/
+theorem callK_rel (S S' : Song) {X X' : List Node} (hX : closedL X) (hX' : closedL X')
+    (hbase : ∀ k k', (∀ j, j < k' → ∀ k, CallRel (callK S k) (callK S' j)) →
+        CallRel (callK S k) (callK S' k') → FEq (callK S k) (callK S' k') X X')
+    (htr : ∀ id evs, S.track? id = some evs → ∃ evs', S'.track? id = some evs' ∧ ERel X X' evs evs') :
+    ∀ k' k, CallRel (callK S k) (callK S' k') := by
+  intro k'
+  induction k' using Nat.strongRecOn with
+  | _ k' ih =>
+    intro k d d' id
+    cases k with
+    | zero => simp only [callK]; exact ResRel.err _ _
+    | succ k =>
+      cases k' with
+      | zero => simp only [callK]; exact ResRel.depth _
+      | succ k' =>
+        simp only [callK]
+        by_cases h1 : d ≥ limit
+        · simp only [h1, if_true]; exact ResRel.err _ _
+        · by_cases h2 : d' ≥ limit
+          · simp only [h2, if_true]; exact ResRel.depth _
+          · simp only [h1, h2, if_false]
+            cases ht : S.track? id with
+            | none => exact ResRel.err _ _
+            | some evs =>
+              obtain ⟨evs', ht', hrel⟩ := htr id evs ht
+              simp only [ht']
+              have hc : CallRel (callK S k) (callK S' k') := ih k' (Nat.lt_succ_self _) k
+              have hb := hbase k k' (fun j hj => ih j (Nat.lt_succ_of_lt hj)) hc
+              exact (parse_cong hc hX hX' hb hrel).l _ _ false
+
+/-- the performances of related root tracks in the two songs -/
+theorem perf_rel (S S' : Song) {X X' : List Node} (hX : closedL X) (hX' : closedL X')
+    (hbase : ∀ k k', (∀ j, j < k' → ∀ k, CallRel (callK S k) (callK S' j)) →
+        CallRel (callK S k) (callK S' k') → FEq (callK S k) (callK S' k') X X')
+    (htr : ∀ id evs, S.track? id = some evs → ∃ evs', S'.track? id = some evs' ∧ ERel X X' evs evs')
+    {root root' : List Event} (hroot : ERel X X' root root') :
+    ResRel (perf S root) (perf S' root') := by
+  have hall := callK_rel S S' hX hX' hbase htr
+  have hc := hall limit limit
+  have hb := hbase limit limit (fun j _ k => hall j k) hc
+  exact (parse_cong hc hX hX' hb hroot).l 0 0 false
+
+theorem ResRel.sound {r r' : Res} (h : ResRel r r') {x y : List Item} (h1 : r = .ok x) (h2 : r' = .ok y) :
+    obs y = obs x := by
+  subst h1 h2
+  exact (OEq.symm h : OEq y x)
+
+theorem ResRel.accepts {r r' : Res} (h : ResRel r r') {x : List Item} (h1 : r = .ok x)
+    (h2 : r' ≠ .error .depth) : ∃ y, r' = .ok y := by
+  subst h1
+  cases r' with
+  | ok y => exact ⟨y, rfl⟩
+  | error e =>
+    have : e = .depth := h
+    subst this
+    exact absurd rfl h2
+
+/-! ## the loop fold -/
+
+theorem topBreakEv_noBreak : ∀ (f : List Node), hasTopBreak f = false → topBreakEv f = endEvent
+  | [], _ => rfl
+  | n :: ns, h => by
+    cases n <;> simp_all [hasTopBreak, topBreakEv] <;> exact topBreakEv_noBreak ns (by assumption)
+
+/-- forests without top-level break: the relation of their `expL` suffices -/
+theorem FEq.of_noBreak {c c' : CallFn} {f f' : List Node} (h : hasTopBreak f = false)
+    (h' : hasTopBreak f' = false) (hl : ∀ d d', ResRel (expL c d true f) (expL c' d' true f')) :
+    FEq c c' f f' := by
+  refine ⟨?_, ?_, by rw [h, h'], by rw [topBreakEv_noBreak f h, topBreakEv_noBreak f' h']⟩
+  · intro d d' b
+    rw [expL_inLoop c d b true f h, expL_inLoop c' d' b true f' h']
+    exact hl d d'
+  · intro d d'
+    rw [expPre_noBreak c d f h, expPre_noBreak c' d' f' h']
+    exact hl d d'
+
+/-- `r` repeated `n` times -/
+def repRes : Nat → Res → Res
+  | 0, _ => .ok []
+  | n + 1, r => Expand.seq r (repRes n r)
+
+theorem repRes_ok (n : Nat) (x : List Item) : repRes n (.ok x) = .ok (repeatItems n x) := by
+  induction n with
+  | zero => rfl
+  | succ n ih => simp [repRes, ih, Expand.seq, repeatItems]
+
+theorem expL_replicate (c : CallFn) (d : Nat) (b : Bool) (f : List Node) (n : Nat) :
+    expL c d b (List.replicate n f).flatten = repRes n (expL c d b f) := by
+  induction n with
+  | zero => simp [repRes, expL]
+  | succ n ih => simp only [List.replicate_succ, List.flatten_cons, expL_append, ih, repRes]
+
+theorem hasTopBreak_replicate (f : List Node) (h : hasTopBreak f = false) (n : Nat) :
+    hasTopBreak (List.replicate n f).flatten = false := by
+  induction n with
+  | zero => simp [hasTopBreak]
+  | succ n ih => simp [List.replicate_succ, hasTopBreak_append, h, ih]
+
+theorem closedL_replicate (f : List Node) (h : closedL f) (n : Nat) :
+    closedL (List.replicate n f).flatten := by
+  induction n with
+  | zero => simp [closedL]
+  | succ n ih => simp [List.replicate_succ, closedL_append, h, ih]
+
+/-- the phrase `A0 A1`, `k` more copies of it, and the prefix `A0` again -/
+def foldSrc (A0 A1 : List Node) (k : Nat) : List Node :=
+  (A0 ++ A1) ++ (List.replicate k (A0 ++ A1)).flatten ++ A0
+
+/-- what the optimiser writes for it: `[ A0 / A1 ](k+2)` -/
+def foldDst (A0 A1 : List Node) (ls lb le : Event) : List Node :=
+  [.loop ls (A0 ++ .brk lb :: A1) le]
+
+theorem foldSrc_noBreak {A0 A1 : List Node} (h0 : hasTopBreak A0 = false) (h1 : hasTopBreak A1 = false)
+    (k : Nat) : hasTopBreak (foldSrc A0 A1 k) = false := by
+  have hA : hasTopBreak (A0 ++ A1) = false := by simp [hasTopBreak_append, h0, h1]
+  simp [foldSrc, hasTopBreak_append, h0, h1, hasTopBreak_replicate _ hA]
+
+theorem foldSrc_closed {A0 A1 : List Node} (h0 : closedL A0) (h1 : closedL A1) (k : Nat) :
+    closedL (foldSrc A0 A1 k) := by
+  have hA : closedL (A0 ++ A1) := (closedL_append _ _).2 ⟨h0, h1⟩
+  simp [foldSrc, closedL_append, h0, h1, closedL_replicate _ hA]
+
+theorem foldDst_closed {A0 A1 : List Node} (h0 : closedL A0) (h1 : closedL A1) {ls lb le : Event}
+    (hls : ls.kind = .loopStart) (hlb : lb.kind = .loopBreak) (hle : le.kind = .loopEnd) :
+    closedL (foldDst A0 A1 ls lb le) := by
+  simp [foldDst, closedL, Node.closed, closedL_append, h0, h1, hls, hlb, hle]
+
+theorem fold_FEq {c c' : CallFn} (hc : CallRel c c') (A0 A1 : List Node) (k : Nat) (ls lb le : Event)
+    (h0 : hasTopBreak A0 = false) (h1 : hasTopBreak A1 = false)
+    (hls : ls.kind = .loopStart) (hlb : lb.kind = .loopBreak) (hle : le.kind = .loopEnd)
+    (zls : ls.on = 0 ∧ ls.off = 0) (zlb : lb.on = 0 ∧ lb.off = 0) (zle : le.on = 0 ∧ le.off = 0)
+    (hcount : le.param = (k : Int) + 2) :
+    FEq c c' (foldSrc A0 A1 k) (foldDst A0 A1 ls lb le) := by
+  apply FEq.of_noBreak (foldSrc_noBreak h0 h1 k) (by simp [foldDst, hasTopBreak])
+  intro d d'
+  have sls : Silent (item ls) := silent_item (Or.inl hls) zls.1 zls.2
+  have slb : Silent (item lb) := silent_item (Or.inr (Or.inr (Or.inl hlb))) zlb.1 zlb.2
+  have sle : Silent (item le) := silent_item (Or.inr (Or.inl hle)) zle.1 zle.2
+  have slast : Silent { ev := le, src := lb } := by
+    refine ⟨Or.inr (Or.inl hle), by simp [zlb.1, zlb.2], ?_⟩
+    show lb.kind ≠ .segno
+    simp [hlb]
+  have hn : le.param.toNat = k + 2 := by rw [hcount]; omega
+  have hnn : ¬ le.param < 0 := by rw [hcount]; omega
+  have r0 := (FEq.rfl' hc A0).l d (d' + 1) true
+  have r1 := (FEq.rfl' hc A1).l d (d' + 1) true
+  -- right-hand side
+  simp only [foldDst, expL_single, expN_loop]
+  by_cases h2 : d' ≥ limit
+  · simp only [h2, if_true]; exact ResRel.depth _
+  simp only [h2, if_false]
+  have hbody : hasTopBreak (A0 ++ Node.brk lb :: A1) = true := by simp [hasTopBreak_append, hasTopBreak]
+  have htb : topBreakEv (A0 ++ Node.brk lb :: A1) = lb := by simp [topBreakEv_append, h0, topBreakEv]
+  have hpre : expPre c' (d' + 1) (A0 ++ Node.brk lb :: A1) = expL c' (d' + 1) true A0 := by
+    simp [expPre_append, h0, expPre, seq_nil_right]
+  have hfull : expL c' (d' + 1) true (A0 ++ Node.brk lb :: A1)
+      = Expand.seq (expL c' (d' + 1) true A0) (Expand.seq (.ok [item lb]) (expL c' (d' + 1) true A1)) := by
+    simp [expL_append, expL_cons, expN]
+  rw [hbody, htb, hpre, hfull]
+  -- left-hand side
+  simp only [foldSrc, expL_append, expL_replicate]
+  cases hx0 : expL c d true A0 with
+  | error e => simp only [Expand.seq]; exact ResRel.err _ _
+  | ok a0 =>
+    cases hx1 : expL c d true A1 with
+    | error e => simp only [Expand.seq]; exact ResRel.err _ _
+    | ok a1 =>
+      rw [hx0] at r0
+      rw [hx1] at r1
+      cases hy0 : expL c' (d' + 1) true A0 with
+      | error e' =>
+        rw [hy0] at r0
+        have : e' = .depth := r0
+        subst this
+        simp only [Expand.seq]
+        exact ResRel.depth _
+      | ok a0' =>
+        cases hy1 : expL c' (d' + 1) true A1 with
+        | error e' =>
+          rw [hy1] at r1
+          have : e' = .depth := r1
+          subst this
+          simp only [Expand.seq]
+          exact ResRel.depth _
+        | ok a1' =>
+          rw [hy0] at r0
+          rw [hy1] at r1
+          have q0 : OEq a0 a0' := r0
+          have q1 : OEq a1 a1' := r1
+          simp only [Expand.seq, repRes_ok, loopOut, hnn, if_false, hn]
+          have hk : ¬ (k + 2 ≤ 1) := by omega
+          simp only [hk, if_false, if_true]
+          have hk1 : k + 2 - 1 = k + 1 := by omega
+          rw [hk1]
+          show OEq _ _
+          have hl : OEq (a0 ++ a1) (a0' ++ ([item lb] ++ a1') ++ [item le]) :=
+            OEq.trans (OEq.append q0 (OEq.silent_cons_right slb q1)) (OEq.symm (OEq.silent_snoc sle _))
+          apply OEq.silent_cons_right sls
+          show OEq (a0 ++ a1 ++ repeatItems k (a0 ++ a1) ++ a0) _
+          exact OEq.append (OEq.append hl (OEq.rep hl k))
+            (OEq.trans q0 (OEq.symm (OEq.silent_snoc slast _)))
+
+/-- the variant without remainder: `k+1` copies of `A` become `[ A ](k+1)` -/
+theorem fold0_FEq {c c' : CallFn} (hc : CallRel c c') (A : List Node) (k : Nat) (ls le : Event)
+    (h0 : hasTopBreak A = false)
+    (hls : ls.kind = .loopStart) (hle : le.kind = .loopEnd)
+    (zls : ls.on = 0 ∧ ls.off = 0) (zle : le.on = 0 ∧ le.off = 0)
+    (hcount : le.param = (k : Int) + 1) :
+    FEq c c' (List.replicate (k + 1) A).flatten [.loop ls A le] := by
+  apply FEq.of_noBreak (hasTopBreak_replicate A h0 _) (by simp [hasTopBreak])
+  intro d d'
+  have sls : Silent (item ls) := silent_item (Or.inl hls) zls.1 zls.2
+  have sle : Silent (item le) := silent_item (Or.inr (Or.inl hle)) zle.1 zle.2
+  have hn : le.param.toNat = k + 1 := by rw [hcount]; omega
+  have hnn : ¬ le.param < 0 := by rw [hcount]; omega
+  have r0 := (FEq.rfl' hc A).l d (d' + 1) true
+  simp only [expL_single, expN_loop, expL_replicate]
+  by_cases h2 : d' ≥ limit
+  · simp only [h2, if_true]; exact ResRel.depth _
+  simp only [h2, if_false]
+  cases hx : expL c d true A with
+  | error e => simp only [repRes, Expand.seq]; exact ResRel.err _ _
+  | ok a =>
+    rw [hx] at r0
+    cases hy : expL c' (d' + 1) true A with
+    | error e' =>
+      rw [hy] at r0
+      have : e' = .depth := r0
+      subst this
+      exact ResRel.depth _
+    | ok a' =>
+      rw [hy] at r0
+      have q : OEq a a' := r0
+      have hl : OEq a (a' ++ [item le]) := OEq.trans q (OEq.symm (OEq.silent_snoc sle _))
+      simp only [repRes_ok, loopOut, hnn, if_false, hn, h0]
+      by_cases hk : k + 1 ≤ 1
+      · have : k = 0 := by omega
+        subst this
+        simp only [hk, if_true]
+        show OEq _ _
+        apply OEq.silent_cons_right sls
+        simpa [repeatItems] using hl
+      · simp only [hk, if_false, Bool.false_eq_true]
+        show OEq _ _
+        apply OEq.silent_cons_right sls
+        exact OEq.rep hl _
+
+/-! ## subroutine extraction -/
+
+theorem ResRel.silent_call {r r' : Res} {i : Item} (hi : Silent i) (h : ResRel r r') :
+    ResRel r (Expand.seq (.ok [i]) r') := by
+  cases r with
+  | error e => exact ResRel.err _ _
+  | ok x =>
+    cases r' with
+    | error e' =>
+      have : e' = .depth := h
+      subst this
+      simp only [Expand.seq]
+      exact ResRel.depth _
+    | ok y =>
+      simp only [Expand.seq]
+      exact OEq.silent_cons_right hi h
+
+theorem extract_FEq (S S' : Song) (X : List Node) (j : Event) (k k' : Nat)
+    (hXc : closedL X) (hXb : hasTopBreak X = false)
+    (hj : j.kind = .jump) (zj : j.on = 0 ∧ j.off = 0)
+    (hnew : S'.track? (trackIdOfParam j.param) = some (flattenL X))
+    (hlt : ∀ i, i < k' → ∀ k, CallRel (callK S k) (callK S' i)) :
+    FEq (callK S k) (callK S' k') X [.ev j] := by
+  apply FEq.of_noBreak hXb (by simp [hasTopBreak])
+  intro d d'
+  have sj : Silent (item j) := silent_item (Or.inr (Or.inr (Or.inr hj))) zj.1 zj.2
+  simp only [expL_single, expN, hj]
+  cases k' with
+  | zero => simp only [callK, Expand.seq]; exact ResRel.depth _
+  | succ k' =>
+    simp only [callK]
+    by_cases h2 : d' ≥ limit
+    · simp only [h2, if_true, Expand.seq]; exact ResRel.depth _
+    · simp only [h2, if_false, hnew, parse_flattenL X hXc]
+      apply ResRel.silent_call sj
+      have := (FEq.rfl' (hlt k' (Nat.lt_succ_self _) k) X).l d (d' + 1) false
+      rwa [expL_inLoop _ d false true X hXb] at this
+
 end Ctrmml.Rewrite
